@@ -167,6 +167,14 @@ def handleRow (op : String) (j : Json) : Except String Json := do
     let v ← valOfJ sch.top (← j.getObjVal? "v")
     pure (Json.mkObj [("repr", Json.bool (Representable sch.top v)),
       ("adm", Json.bool (Admissible sch lay)), ("any", Json.bool (AnySpreadOk sch lay v))])
+  | "row.domain2" => do
+    -- the hypotheses of the general theorem `Props.C07.parse_unparse`
+    let sch ← schemaOfJ (← j.getObjVal? "sch")
+    let lay ← layoutOfJ j
+    let v ← valOfJ sch.top (← j.getObjVal? "v")
+    pure (Json.mkObj [("good", Json.bool (goodTop sch.top)),
+      ("repr", Json.bool (Representable sch.top v)),
+      ("lay", Json.bool (LayoutOk sch lay v)), ("remap", Json.bool (RemapConsistent sch lay v))])
   | "row.match" => do
     let h ← asStrList (← j.getObjVal? "hs")
     let p ← getStr j "prefix"
